@@ -482,8 +482,10 @@ def guard_term(body: List[ast.stmt], env: Env, fname: str) -> str:
 def acceptance_term(tx: ast.Module) -> Tuple[str, List[str]]:
     """Transaction.append_files: what is demanded of data_file.file_path for EVERY file, before the operation is queued."""
     fn = find_function(tx, "append_files", cls="Transaction")
-    if [a.arg for a in fn.args.args] != ["self", "files"]:
-        raise Unsupported("append_files signature changed")
+    names = [a.arg for a in fn.args.args]
+    # (self, files) plus optional trailing keyword parameters with defaults (e.g. the private flag append_data passes)
+    if names[:2] != ["self", "files"] or len(fn.args.defaults) != len(names) - 2:
+        raise Unsupported(f"append_files signature changed: {names}")
     body = strip_docstring(fn.body)
     loops = [s for s in body if isinstance(s, ast.For)]
     if len(loops) != 1:
